@@ -446,6 +446,12 @@ def make_replayer(ck, modname, driver, build, params=None):
         if obs.get("panicked"):
             return True, "native run panicked: " + obs.get("panic_text", "")[-300:], rp
         goals = build(Src(model), obs)
+        if isinstance(goals, dict) and "goals" in goals and "hyps" in goals:
+            # defensive: the counterexample must satisfy the input assumptions of the obligation
+            bad = [h for h in goals["hyps"] if concrete_truth(h) is False]
+            if bad:
+                return None, "model violates an input assumption of the obligation (check construction bug?): " + str(bad[0])[:200], rp
+            goals = goals["goals"]
         gname = q.meta.get("goal")
         if gname not in goals:
             return None, f"goal {gname} not rebuilt in concrete mode", rp
@@ -479,6 +485,8 @@ def replay_file(path, rebuild):
         return 1
     build = rebuild(ck, d["driver"], d.get("params") or {})
     goals = build(Src(d["model"]), obs)
+    if isinstance(goals, dict) and "goals" in goals and "hyps" in goals:
+        goals = goals["goals"]
     gname = d["obligation"].split("/", 1)[1] if d["obligation"].split("/", 1)[1] in goals else None
     for g in goals:
         if d["obligation"].endswith(g):
